@@ -19,6 +19,16 @@ class InfraError(Exception):
     """Build failure, nondeterministic replay, missing tool: exit 2, never a VIOLATION."""
 
 
+class EmuRefused(InfraError):
+    """The real emulator (inside the exploration server) refused to initialise on a trace the check built as valid
+    (header-only streams with complete metadata).  That is the emulator's behaviour on a legal input: reported as a
+    violation of the running property, with the system description as replay."""
+
+    def __init__(self, msg, tracedir=None, flags=None):
+        InfraError.__init__(self, "the emulator refuses the valid base trace: %s" % msg)
+        self.emsg, self.tracedir, self.flags = msg, tracedir, list(flags or [])
+
+
 # --------------------------------------------------------------------------
 # build
 # --------------------------------------------------------------------------
